@@ -245,8 +245,11 @@ class Ctx:
         ev = {'property_id': self.prop, 'tier': self.tier, 'seed': self.seed, 'level': self.level,
               'coverage': cov, 'assumptions': self.assumptions, 'wall_s': round(wall, 2),
               'violations': len(self.violations)}
-        os.makedirs(os.path.join(VERIF, 'evidence'), exist_ok=True)
-        with open(os.path.join(VERIF, 'evidence', self.prop + '.json'), 'w') as f:
+        # evidence/ describes /repo only: a run against another checkout (VERIF_REPO, used to evaluate seeded
+        # changes) leaves its record under findings/ (not committed)
+        evdir = os.path.join(VERIF, 'findings', 'evidence-other-tree') if os.environ.get('VERIF_REPO') else os.path.join(VERIF, 'evidence')
+        os.makedirs(evdir, exist_ok=True)
+        with open(os.path.join(evdir, self.prop + '.json'), 'w') as f:
             json.dump(ev, f, indent=1, default=str)
         if os.environ.get('VERIF_KEEP'):
             print('scratch kept at', self.scratch)
